@@ -123,6 +123,7 @@ type input struct {
 	Class     string `json:"class"`            // normal | host-illegal | svcb-illegal
 	Dotted    bool   `json:"dotted,omitempty"` // the host is written with a trailing dot
 	MixedCase bool   `json:"mixed_case,omitempty"`
+	DotScheme bool   `json:"scheme_with_dot,omitempty"` // RFC 3986 allows "." in a scheme (z39.50s, iris.beep): its RFC 9460 label is "_z39.50s", ONE label
 }
 
 func legalName(n string) bool {
@@ -188,6 +189,9 @@ func genInput(rng *mrand.Rand, i int) input {
 		in.Scheme = []string{"https", "http", "foo", "HTTPS", "Http", "wss"}[rng.IntN(6)]
 		if sp.schemeLen > 0 {
 			in.Scheme = letters(rng, sp.schemeLen)
+		} else if !isSp && rng.IntN(25) == 0 {
+			in.Scheme = []string{"z39.50s", "iris.beep", "soap.beep.s"}[rng.IntN(3)]
+			in.DotScheme = true
 		}
 	}
 	in.Arg = in.Host
@@ -860,6 +864,17 @@ func TestCheck(t *testing.T) {
 				viol("Q1:malformed-qname:"+what+":"+why, "query #%d carries an illegal QNAME (labels %d, longest %d, parsed=%v) for Resolve(%s)", q.Seq, len(q.Labels), longest(q.Labels), q.Parsed, mon.Clip(in.Arg, 60))
 				continue
 			}
+			if in.DotScheme {
+				// the scheme label must be on the wire as ONE label; the joined text of a name whose scheme was split
+				// on its dots reads the same, so the labels decide
+				whole := "_" + strings.ToLower(in.Scheme)
+				for _, l := range q.Labels {
+					if l != whole && strings.HasPrefix(whole, l+".") {
+						viol("Q1:malformed-qname:scheme-split-over-labels", "query #%d for Resolve(%s) carries the labels %q: the scheme label %q is spread over several labels, which is the RFC 9460 name of another scheme on another host", q.Seq, mon.Clip(in.Arg, 60), q.Labels, whole)
+						break
+					}
+				}
+			}
 			if q.Type != dohfake.TypeA && q.Type != dohfake.TypeAAAA && q.Type != dohfake.TypeHTTPS {
 				viol("Q1:qtype", "query #%d has qtype %d", q.Seq, q.Type)
 			}
@@ -934,9 +949,16 @@ func TestCheck(t *testing.T) {
 		}
 
 		// Q5: error mapping
+		if in.DotScheme {
+			r.Count("inputs_with_a_dot_in_the_scheme", 1)
+		}
 		if err != nil {
 			if in.Class == "svcb-illegal" {
 				return // refusing is one of the two acceptable outcomes
+			}
+			if in.DotScheme && len(qlog) == 0 {
+				r.Count("dotted_schemes_refused_without_a_query", 1)
+				return // a codec that cannot put a dot into a label may refuse the name
 			}
 			onlyNXHTTPS, justified := len(served) > 0, false
 			for _, q := range served {
@@ -1195,6 +1217,7 @@ func TestCheck(t *testing.T) {
 	r.Floor("cases_with_resolver_history", int64(n)/6)
 	r.Floor("answers_with_cname_after_its_target", int64(n)/100)
 	r.Floor("universes_served_without_content_length", int64(n)/16)
+	r.Floor("inputs_with_a_dot_in_the_scheme", int64(n)/200)
 	r.Count("poison_records_owned_by_unicode_fold_variant_of_the_name", foldPoison.Load())
 	r.Floor("poison_records_owned_by_unicode_fold_variant_of_the_name", int64(n)/200)
 	r.Floor("alias_hops_followed", int64(n)/10)
